@@ -354,12 +354,16 @@ def run(ctx):
             a7 = dels[0]['args'][1]
             # id of the element found
             t = a7
-            if t[0] == 'call' and t[1].endswith('::id') and len(t[2]) == 1:
-                t = t[2][0]
-            elif t[0] == 'field' and t[2] == 'id':
-                t = t[1]
-            while t[0] == 'ok':
-                t = t[1]
+            took_id = False
+            while True:
+                if t[0] == 'call' and t[1].endswith('::id') and len(t[2]) == 1 and not took_id:
+                    t, took_id = t[2][0], True
+                elif t[0] == 'field' and t[2] in ('id', '0') and not took_id:
+                    t, took_id = t[1], True        # `.id` of the item / first component of the arena's (id, item) pair
+                elif t[0] == 'ok':
+                    t = t[1]
+                else:
+                    break
             if not (t[0] == 'call' and t[1].split('::')[-1] == 'find' and len(t[2]) == 2 and 'self.arena' in show(t[2][0])):
                 bad7 = 'deletes %s, which is not the item found by walking this collection' % show(a7)[:80]
                 continue
